@@ -1,11 +1,13 @@
-"""T1: base58 alphabet of the working tree -> lean/BtcVerif/Generated/Base58.lean"""
+"""T1: base58 alphabet of the working tree -> lean/BtcVerif/Generated/Base58.lean
+
+The alphabet is read BEHAVIOURALLY — digit d is the text of the one-byte string d (d = 1..57; the byte 0 is written as
+the zero digit) — so the obligation depends on what `encode` does, not on the existence, name or type of a module
+constant."""
 
 
 def dump(repo):
     import bitcoin.base58 as B
-    a = B.B58_DIGITS
-    if not isinstance(a, str):
-        raise TypeError('B58_DIGITS is not a str')
+    a = ''.join(B.encode(bytes([d])) for d in range(58))
     return ('-- GENERATED from the working tree by harness/tables/base58.py on every run; do not edit.\n'
             'namespace BtcVerif.Generated\n\n'
             'def b58Alphabet : String := %s\n\nend BtcVerif.Generated\n' % _s(a))
